@@ -24,6 +24,8 @@ Soundness (induction over executed instructions, doubles read as reals):
   calls to functions defined in the module are inlined per call site with a
       fresh set of unknowns (helpers are degree-polymorphic); library helpers
       (sas_J1, sas_3j1x_x, polevl ...) are typed from their real bodies;
+  a phi/select arm that is taken only when `fcmp x, 0.0` has established
+      x == 0 and that carries x itself is exempt (the value is 0 there);
   integer values carry no degree (they may only come from fptosi of a
       degree-0 value or from counters), so integer-controlled branches are
       invariant as well.
@@ -124,6 +126,7 @@ class Typing:
         self.nconstr = 0
         self.inlined = 0
         self.instrs = 0
+        self.exempted = 0
         self.callees = set()
         self.externals = set()
         self.zero = Val(z3.RealVal(0), z3.RealVal(0), "0")
@@ -250,11 +253,47 @@ def _inst(self, fname, args, ctx="", depth=0):
             env[reg] = v
     ret = self.fresh(fname + ".ret") if f.ret in ("double", "float") else None
     here = ctx + fname
+    zero_edges, zero_sel = _zero_facts(f)
     for label, block in f.blocks.items():
         for ins in block:
             self.instrs += 1
+            if ins[0] == "phi":
+                # incoming value known to be exactly 0 on its edge: exempt
+                kept = [(lab, o) for lab, o in ins[2]
+                        if not (o[0] == "reg" and (lab, label, o[1]) in zero_edges)]
+                self.exempted += len(ins[2]) - len(kept)
+                ins = ("phi", ins[1], kept)
+            elif ins[0] == "select" and ins[2][0] == "reg" and ins[2][1] in zero_sel:
+                reg, arm = zero_sel[ins[2][1]]
+                o = ins[3 + arm]
+                if o == ("reg", reg):
+                    self.exempted += 1
+                    ins = ("fneg", ins[1], ins[4 - arm])      # result has the other arm's degree
             self._instr(env, ins, ret, here, depth)
     return ret
+
+
+def _zero_facts(f):
+    """Edges / select arms on which a register is known to be exactly zero:
+    `c = fcmp une x, 0.0; br c, T, F`  => x == 0 on the edge to F (oeq: to T);
+    `select c, a, b`                   => arm b is taken only when x == 0."""
+    cmps = {}
+    for block in f.blocks.values():
+        for ins in block:
+            if ins[0] == "fcmp" and ins[2] in ("une", "one", "oeq", "ueq"):
+                a, b = ins[3], ins[4]
+                if b[0] == "fp" and b[1] == 0.0 and a[0] == "reg":
+                    cmps[ins[1]] = (a[1], 0 if ins[2] in ("oeq", "ueq") else 1)
+                elif a[0] == "fp" and a[1] == 0.0 and b[0] == "reg":
+                    cmps[ins[1]] = (b[1], 0 if ins[2] in ("oeq", "ueq") else 1)
+    edges = set()
+    for label, block in f.blocks.items():
+        if block and block[-1][0] == "br" and block[-1][2][0] == "reg" and block[-1][2][1] in cmps:
+            reg, arm = cmps[block[-1][2][1]]
+            target = block[-1][3 + arm]
+            if block[-1][3] != block[-1][4]:
+                edges.add((label, target, reg))
+    return edges, cmps
 
 
 def _instr(self, env, ins, ret, here, depth):
@@ -310,6 +349,8 @@ def _instr(self, env, ins, ret, here, depth):
         v = val(src)
         if v is not None and ft[0] == "ptr":
             env[dest] = v          # same cells seen through another pointer type
+        elif _isfp(ft) != _isfp(tt):
+            raise Unsupported("bit reinterpretation of a double in %s" % here)
     elif op in ("sitofp", "uitofp"):
         self.eq(val(("reg", dest)), self.zero, why)
     elif op in ("fptosi", "fptoui"):
